@@ -29,7 +29,7 @@ theorem chainByName_other {n : String} (h1 : n ≠ "mainnet") (h2 : n ≠ "testn
     changes nothing -/
 theorem selectParams_eq (st : ChainState) (n : String) :
     selectParams st n = match chainByName? n with
-                        | some q => (⟨q, q⟩, none)
+                        | some q => (⟨q, .full q⟩, none)
                         | none => (st, some .valueerr) := by
   by_cases h1 : n = "mainnet"
   · subst h1; rw [chainByName_mainnet]; rfl
@@ -58,7 +58,8 @@ theorem selFrom_cons (p : ChainParams) (n : String) (h : List String) :
     cases (List.filterMap chainByName? h).getLast? <;> simp
 
 theorem foldl_select (p : ChainParams) (history : List String) :
-    history.foldl (fun st n => (selectParams st n).1) ⟨p, p⟩ = ⟨selFrom p history, selFrom p history⟩ := by
+    history.foldl (fun st n => (selectParams st n).1) ⟨p, .full p⟩ =
+      ⟨selFrom p history, .full (selFrom p history)⟩ := by
   induction history generalizing p with
   | nil => rfl
   | cons n h ih =>
@@ -66,6 +67,24 @@ theorem foldl_select (p : ChainParams) (history : List String) :
     cases chainByName? n with
     | none => exact ih p
     | some q => exact ih q
+
+/-- from an arbitrary state: nothing changes until the first chain name; from then on both globals
+    are the same full object -/
+theorem foldl_select_from (st : ChainState) (history : List String) :
+    history.foldl (fun st n => (selectParams st n).1) st =
+      if history.filterMap chainByName? = [] then st
+      else ⟨selFrom st.params history, .full (selFrom st.params history)⟩ := by
+  induction history generalizing st with
+  | nil => rfl
+  | cons n h ih =>
+    rw [List.foldl_cons, selectParams_eq, selFrom_cons]
+    cases hc : chainByName? n with
+    | none =>
+      simp only [List.filterMap_cons, hc]
+      exact ih st
+    | some q =>
+      simp only [List.filterMap_cons, hc, List.cons_ne_nil, if_false]
+      exact foldl_select q h
 
 theorem chainByName_mem {n : String} {q : ChainParams} (h : chainByName? n = some q) : q ∈ chainTable := by
   unfold chainByName? at h
